@@ -19,7 +19,7 @@ RULE = ('random fields of dtype complex128 / float64 / int64 / bool in C, Fortra
         'requested spacing 0.31..1.7 x the FFT spacing; shifts 0 / integer / fractional samples per axis; methods mdft and czt; '
         'both directions; executor level additionally with per-axis Q = (Qy,Qx), Qy != Qx; masks: all-pass on a band-complete '
         'M x M grid (M >= both pupil sides), random real and complex masks on arbitrary (non-square) grids and samplings, '
-        'with shifts; Wavefront.babinet on the same mask families with complex / binary / no Lyot stop. A case is non-trivial unless the array is 1x1 / the embedding adds nothing / a = 1, b = 0; '
+        'with shifts; call histories over the shared executors: every (forward, backprop) pair of entry points (free functions, Wavefront methods, executor level; mdft with czt interleaved) as a-b-a / b-a / a-b-b-a / a-b-a-b-a on ONE sampling key, then random words of 3..7 steps; Wavefront.babinet on the same mask families with complex / binary / no Lyot stop. A case is non-trivial unless the array is 1x1 / the embedding adds nothing / a = 1, b = 0; '
         'distinct = distinct (item, input) tuples')
 ASSUMPTIONS = ['cases whose shift or Q is handed over as a float32 ndarray are compared at 2e-4 (NumPy computes with the precision of the '
                'argument the user chose), all others at 1e-9',
@@ -475,6 +475,130 @@ def pred_babinet_model(c):
     return None
 
 
+# ------------------------------------------------------------------------------------------------
+# call histories over the shared executors: forward, inverse AND *_backprop entry points on ONE sampling key
+# ------------------------------------------------------------------------------------------------
+HIST_FWD = ('ffs', 'ufs', 'fpm', 'wf_ffs', 'wf_fpm', 'babinet', 'dft2', 'idft2', 'czt_ffs', 'czt_fpm')
+HIST_BP = ('ffs_bp', 'ufs_bp', 'fpm_bp', 'wf_ffs_bp', 'wf_ufs_bp', 'wf_fpm_bp', 'babinet_bp', 'dft2_bp', 'idft2_bp')
+HIST_OPS = HIST_FWD + HIST_BP
+
+
+def _hist_run(c, op, env):
+    """one step of a history; every step uses the same pupil grid, mask grid, spacings and shift (one cache key per direction)"""
+    pr, ft = _impl()
+    m, n, My, Mx = c['m'], c['n'], c['My'], c['Mx']
+    lam, efl, dx, fdx = c['lam'], c['efl'], c['dx'], c['fdx']
+    sh = tuple(L.eff_shift(c, fdx))
+    bsh = (sh[0] * dx / fdx, sh[1] * dx / fdx)          # the return leg of to_fpm_and_back is given this shift
+    f, g, mk, lyot = env
+    Qf = tuple(pr.Q_for_sampling(s_ * dx, efl, lam, fdx) for s_ in (m, n))
+    Qb = tuple(pr.Q_for_sampling(s_ * fdx, efl, lam, dx) for s_ in (My, Mx))
+    shs, bshs = (sh[0] / fdx, sh[1] / fdx), (bsh[0] / dx, bsh[1] / dx)
+    W = pr.Wavefront
+    if op == 'ffs':
+        return pr.focus_fixed_sampling(f, dx, efl, lam, fdx, (My, Mx), shift=sh, method='mdft')
+    if op == 'czt_ffs':
+        return pr.focus_fixed_sampling(f, dx, efl, lam, fdx, (My, Mx), shift=sh, method='czt')
+    if op == 'ffs_bp':
+        return pr.focus_fixed_sampling_backprop(g, dx, efl, lam, fdx, (m, n), shift=sh)
+    if op == 'ufs':
+        return pr.unfocus_fixed_sampling(g, fdx, efl, lam, dx, (m, n), shift=bsh, method='mdft')
+    if op == 'ufs_bp':
+        return pr.unfocus_fixed_sampling_backprop(f, fdx, efl, lam, dx, (My, Mx), shift=bsh)
+    if op == 'fpm':
+        return pr.to_fpm_and_back(f, dx, efl, lam, mk, fdx, shift=sh, method='mdft')
+    if op == 'czt_fpm':
+        return pr.to_fpm_and_back(f, dx, efl, lam, mk, fdx, shift=sh, method='czt')
+    if op == 'fpm_bp':
+        return pr.to_fpm_and_back_backprop(f, dx, lam, efl, mk, fdx, shift=sh)
+    if op == 'wf_ffs':
+        return W(f, lam, dx).focus_fixed_sampling(efl, fdx, (My, Mx), shift=sh).data
+    if op == 'wf_ffs_bp':
+        return W(g, lam, fdx, 'psf').focus_fixed_sampling_backprop(efl, dx, (m, n), shift=sh).data
+    if op == 'wf_ufs_bp':
+        wfp = W(f, lam, dx)
+        if not hasattr(wfp, 'unfocus_fixed_sampling_backprop'):
+            return pr.unfocus_fixed_sampling_backprop(f, fdx, efl, lam, dx, (My, Mx), shift=bsh)
+        return wfp.unfocus_fixed_sampling_backprop(efl, fdx, (My, Mx), shift=bsh).data
+    if op == 'wf_fpm':
+        return W(f, lam, dx).to_fpm_and_back(efl, mk, fdx, shift=sh).data
+    if op == 'wf_fpm_bp':
+        return W(f, lam, dx).to_fpm_and_back_backprop(efl, mk, fdx, shift=sh).data
+    if op == 'babinet':
+        return W(f, lam, dx).babinet(efl, lyot, mk, fdx).data
+    if op == 'babinet_bp':
+        return W(f, lam, dx).babinet_backprop(efl, lyot, mk, fdx).data
+    if op == 'dft2':
+        return ft.mdft.dft2(f, Qf, (My, Mx), shift=shs)
+    if op == 'dft2_bp':
+        return ft.mdft.dft2_backprop(g, Qf, (m, n), shift=shs)
+    if op == 'idft2':
+        return ft.mdft.idft2(g, Qb, (m, n), shift=bshs)
+    if op == 'idft2_bp':
+        return ft.mdft.idft2_backprop(f, Qb, (My, Mx), shift=bshs)
+    raise ValueError(f'unknown history step {op}')
+
+
+def _hist_clear():
+    _, ft = _impl()
+    ft.mdft.clear()
+    ft.czt.clear()
+
+
+def pred_history(c):
+    """every step of a call history over the shared mdft / czt executors -- forward, inverse and *_backprop entry points, free
+    functions, Wavefront methods and executor level, all on the same sampling key -- returns what the same call returns on a
+    freshly cleared executor (no call changes what a later call computes); argument arrays untouched"""
+    m, n, My, Mx = c['m'], c['n'], c['My'], c['Mx']
+    env = (_field(c['seed'], (m, n)), _field(c['seed'] + 1, (My, Mx)), _field(c['seed'] + 2, (My, Mx)), _field(c['seed'] + 3, (m, n)))
+    snaps = [a.copy() for a in env]
+    hist = list(c['history'])
+    fresh = {}
+    for op in dict.fromkeys(hist):
+        _hist_clear()
+        fresh[op] = np.array(_hist_run(c, op, env))
+    if not _unchanged(env, snaps):
+        return 'an argument array was modified in place'
+    _hist_clear()
+    try:
+        for k, op in enumerate(hist):
+            r = np.asarray(_hist_run(c, op, env))
+            if r.shape != fresh[op].shape:
+                return f'step {k} ({op}) after {hist[:k]} has shape {r.shape}, on a fresh executor {fresh[op].shape}'
+            err = _relerr(r, fresh[op])
+            if not err <= 1e-12:
+                return (f'step {k} ({op}) after the calls {hist[:k]} differs from the same call on a freshly cleared executor '
+                        f'(rel. err {err:.3g}): an earlier call changed what this one computes')
+            if not _unchanged(env, snaps):
+                return f'step {k} ({op}) modified an argument array in place'
+    finally:
+        _hist_clear()
+    return None
+
+
+def _hist_case(rng, hi, history, shift=None):
+    m, n = int(rng.integers(2, hi + 1)), int(rng.integers(2, hi + 1))
+    My, Mx = int(rng.integers(2, hi + 3)), int(rng.integers(2, hi + 3))
+    if rng.integers(3) == 0:
+        n, Mx = m, My
+    lam, efl, dx = _optics(rng)
+    fdx = FACT[int(rng.integers(len(FACT)))] * lam * efl / (max(m, n) * dx)
+    sh = shift if shift is not None else (SHIFTS[int(rng.integers(len(SHIFTS)))] if rng.integers(2) else (0, 0))
+    return {'m': m, 'n': n, 'My': My, 'Mx': Mx, 'lam': lam, 'efl': efl, 'dx': dx, 'fdx': fdx, 'shift': list(sh),
+            'seed': int(rng.integers(1 << 30)), 'history': list(history)}
+
+
+def gen_history(rng, hi, i):
+    """systematic part: every (forward a, backprop b) pair as a-b-a, b-a, a-b-b-a, a-b-a-b-a; then random words over all steps"""
+    pairs = [(a, b) for a in HIST_FWD for b in HIST_BP]
+    shapes = (lambda a, b: [a, b, a], lambda a, b: [b, a], lambda a, b: [a, b, b, a], lambda a, b: [a, b, a, b, a])
+    if i < 2 * len(pairs):
+        a, b = pairs[i % len(pairs)]
+        return _hist_case(rng, hi, shapes[(i // len(pairs) + i) % len(shapes)](a, b))
+    k = int(rng.integers(3, 8))
+    return _hist_case(rng, hi, [HIST_OPS[int(rng.integers(len(HIST_OPS)))] for _ in range(k)])
+
+
 PREDS = {'linear': pred_linear, 'pad': pred_pad, 'transpose': pred_transpose, 'methods_agree': pred_methods_agree,
          'exec_transpose': pred_exec_transpose, 'exec_pad': pred_exec_pad, 'exec_separable': pred_exec_separable,
          'allpass': pred_allpass, 'babinet': pred_babinet, 'babinet_wavefront': pred_babinet_wavefront,
@@ -512,7 +636,7 @@ def pred_pure(c):
     return None
 
 
-PREDS.update({'fixed_vs_model': pred_pure, 'exec_vs_model': pred_pure, 'fpm_vs_model': pred_pure, 'babinet_vs_model': pred_babinet_model, 'embed_vs_model': pred_embed})
+PREDS.update({'fixed_vs_model': pred_pure, 'exec_vs_model': pred_pure, 'fpm_vs_model': pred_pure, 'babinet_vs_model': pred_babinet_model, 'embed_vs_model': pred_embed, 'history': pred_history})
 
 
 def eval_pred(item, c):
@@ -856,6 +980,14 @@ def correspondence(ctx):
         run('return_more', c, True, tag=f"{'wf' if c['wavefront'] else 'fn'}/mask_wf-{c['mask_wf']}")
         if i % 2 == 0:
             run('fpm_field', c, True, tag=f"{c['mask']}/{c['dtype']}")
+    n_hist = 2 * len(HIST_FWD) * len(HIST_BP) + ctx.scale(60, 400) * wide
+    for i in range(n_hist):
+        c = gen_history(rng, min(hi, 9), i)
+        h = c['history']
+        bp_then_fwd = any(a in HIST_BP and b in HIST_FWD for k, a in enumerate(h) for b in h[k + 1:])
+        run('history', c, bp_then_fwd,
+            tag=(f"{'pair' if i < 2 * len(HIST_FWD) * len(HIST_BP) else 'random'}/{h[0]}-{h[1]}/len{len(h)}/"
+                 f"{'shift' if any(c['shift']) else 'noshift'}"))
 
 
 # ------------------------------------------------------------------------------------------------
@@ -946,6 +1078,14 @@ def search(ctx, hints):
         d = eval_pred(item, c)
         if d is not None:
             return {'item': item, 'input': c, 'detail': d}
+    hrng = np.random.Generator(np.random.PCG64(7))
+    for sh in ((0, 0), (1.5, -2.25)):
+        for a in HIST_FWD:
+            for b in HIST_BP:
+                c = _hist_case(hrng, 5, [a, b, a], shift=sh)
+                d = eval_pred('history', c)
+                if d is not None:
+                    return {'item': 'history', 'input': c, 'detail': d}
     rng = np.random.Generator(np.random.PCG64(ctx.seed + 2000))
     for i in range(ctx.scale(300, 2000)):
         cf, ce, ca, cm = gen_fixed(rng, 9, i), gen_exec(rng, 9, i), gen_allpass(rng, 9, i), gen_fpm(rng, 9, i)
@@ -992,7 +1132,7 @@ MANIFEST_ENTRY = {
              'TRANSLATED from the current source each run (10 items): to_fpm_and_back with both legs inlined by symbolic execution, '
              'for an array mask and for a Wavefront mask (identical leg arguments required) — per-axis Q of each leg, the shift each '
              'leg finally hands to its transform (theorem: both equal shift/fpm_dx), the requested shapes; Q/shift glue of '
-             'focus/unfocus_fixed_sampling; the pointwise arithmetic of Wavefront.babinet (mask handed down = 1 - fpm, field at the Lyot plane = self.data - returned.data, stop applied as a product / skipped when None; theorem gen_babinet: composed around the mask-path model they ARE Model.C05.babinet). RECOGNISERS (Bool facts): mask enters as a plain product and that product travels back, '
+             'focus/unfocus_fixed_sampling; the pointwise arithmetic of Wavefront.babinet (mask handed down = 1 - fpm, field at the Lyot plane = self.data - returned.data, stop applied as a product / skipped when None; theorem gen_babinet: composed around the mask-path model they ARE Model.C05.babinet). RECOGNISERS (Bool facts): no entry point sharing the executor caches (dft2, idft2, czt2, iczt2 and the *_backprop entry points) applies an in-place NumPy operation to an object read from a cache or to a view of one (gen_no_inplace_on_caches); mask enters as a plain product and that product travels back, '
              'order of the return_more tuple, wiring of Wavefront.to_fpm_and_back and the dx/space it labels each returned plane '
              'with, babinet = field - return(1 - fpm). '
              'MODELLED AND COMPARED: focus/unfocus_fixed_sampling, the mdft/czt executors (incl. per-axis Q) and to_fpm_and_back '
@@ -1002,7 +1142,7 @@ MANIFEST_ENTRY = {
              'transpose/pad/separability, all-pass (array or Wavefront mask with or without fpm_dx, function and Wavefront method, '
              'returned container checked), Babinet additivity/complement/homogeneity, field-linearity/pad/transpose/method agreement '
              'of to_fpm_and_back itself, return_more planes (values, order, dx, space) of to_fpm_and_back, its Wavefront method and '
-             'babinet, Lyot stop as array or Wavefront; Wavefront.babinet against the Lean model (table and pointwise from Model.C05.babinet) and against explicit physical-units sums, masks real/complex/binary/bool/int/strided as arrays or Wavefronts, Lyot stop complex/binary/absent, band-complete and general mask grids; Model.C05.embed (the embedding of the pad-invariance theorems) against fttools.pad2d(out_shape=...) exactly, every parity of both shapes.'),
+             'babinet, Lyot stop as array or Wavefront; Wavefront.babinet against the Lean model (table and pointwise from Model.C05.babinet) and against explicit physical-units sums, masks real/complex/binary/bool/int/strided as arrays or Wavefronts, Lyot stop complex/binary/absent, band-complete and general mask grids; call histories interleaving forward, inverse and *_backprop entry points on one sampling key: every step equals the same call on a freshly cleared executor (history); Model.C05.embed (the embedding of the pad-invariance theorems) against fttools.pad2d(out_shape=...) exactly, every parity of both shapes.'),
     'note': ('Trusted: Lean kernel + standard axioms; ast->Lean translator (validated by execution); numpy/scipy; float64 rounding '
-             '(tolerance 1e-9, observed 1e-14). Not covered: *_backprop functions (C06), float32 mode, other backends.'),
+             '(tolerance 1e-9, observed 1e-14). Not covered: the VALUES of the *_backprop functions (C06; here they only appear as steps of call histories), float32 mode, other backends.'),
 }
